@@ -210,7 +210,8 @@ fn parse_pattern_nosubst<L: Language>(
             // bit i set: the i-th bare identifier is a payload of this node
             let as_payload: Vec<bool> = (0..syntax_elems.len())
                 .map(|i| match bare.iter().position(|b| *b == i) {
-                    Some(k) => (mask >> k) & 1 == 1,
+                    // only the first 8 bare identifiers can be payloads (the mask has no more bits)
+                    Some(k) => k < 8 && (mask >> k) & 1 == 1,
                     None => false,
                 })
                 .collect();
